@@ -77,7 +77,7 @@ def _scalar(a):
 
 def graph_only(line):
     """statements that act on the graph only (the NumPy twin has nothing to do)"""
-    return any(x in line for x in (".backward(", ".clear_graph(", ".null_grad("))
+    return any(x in line for x in (".backward(", ".clear_graph(", ".null_grad(", "rawwrite("))
 
 
 def _uids(a):
